@@ -1,13 +1,16 @@
 //! File-level drivers (B3 behaviour replay): byte-range scans, listing tables, writers,
 //! Parquet pruning/pushdown, schema adaptation — DESIGN.md §7.4/§7.5.
 mod store;
+mod util;
 mod c26;
+mod c27;
 
 fn main() {
     let a: Vec<String> = std::env::args().collect();
     let cmd = a.get(1).map(|s| s.as_str()).unwrap_or("");
     match cmd {
         "c26" => c26::main(),
+        "c27" => c27::main(),
         _ => {
             eprintln!("usage: vfiles <c26|c27|c25|c24|c44> [options]");
             std::process::exit(2);
